@@ -1,0 +1,55 @@
+//go:build verif
+
+// Contracts for the verification machinery under /verif (contract-based deductive
+// verification). This file is comment-only, is excluded from every normal build by the
+// "verif" build tag, and declares nothing. See /verif/DESIGN.md §4.
+
+package system
+
+//@ func (i Integer) Add(input Integer) (res Integer, err error)
+//@   ensures err == nil ==> int(res) == int(i) + int(input)
+//@   ensures err == nil <==> inInt32(int(i) + int(input))
+//@   ensures err != nil ==> is(err, ErrIntOverflow)
+//@   assigns nothing
+//
+//@ func (i Integer) Sub(input Integer) (res Integer, err error)
+//@   ensures err == nil ==> int(res) == int(i) - int(input)
+//@   ensures err == nil <==> inInt32(int(i) - int(input))
+//@   ensures err != nil ==> is(err, ErrIntOverflow)
+//@   assigns nothing
+//
+//@ func (i Integer) Mul(input Integer) (res Integer, err error)
+//@   ensures err == nil ==> int(res) == int(i) * int(input)
+//@   ensures err == nil <==> inInt32(int(i) * int(input))
+//@   ensures err != nil ==> is(err, ErrIntOverflow)
+//@   assigns nothing
+//
+//@ func From(input) (res, err)
+//@   defines (err == nil) == fromOk(input)
+//@   defines err == nil ==> res == fromS(input)
+//@   ensures err == nil ==> implements(res, Any)
+//@   ensures err != nil ==> res == nil
+//@   ensures implements(input, Any) ==> err == nil && res == input
+//@   ensures istype(input, *dtpb.Boolean) ==> err == nil && istype(res, Boolean)
+//@   ensures err == nil && istype(res, Boolean) ==> istype(input, Boolean) || istype(input, *dtpb.Boolean)
+//@   ensures istype(input, *dtpb.Boolean) && unbox(input, *dtpb.Boolean) != nil ==> unbox(res, Boolean) == unbox(input, *dtpb.Boolean).Value
+//@   ensures input == nil ==> err != nil
+//@   assigns nothing
+//
+//@ func (c Collection) ToSingletonBoolean() (res, err)
+//@   ensures (err != nil) == (tvC(c) == TV_ERR)
+//@   ensures err == nil ==> len(res) <= 1 && tvB(res) == tvC(c)
+//@   assigns nothing
+//
+//@ func (c Collection) ToSingleton() (res, err)
+//@   ensures (err == nil) == (len(c) == 1)
+//@   ensures err == nil ==> res == c[0]
+//@   ensures err != nil ==> res == nil
+//@   assigns nothing
+//
+//@ func (c Collection) ToBool() (res, err)
+//@   requires validColl(c)
+//@   instantiate From(c[0])
+//@   ensures (err != nil) == (tvC(c) == TV_ERR)
+//@   ensures err == nil ==> res == (tvC(c) == TV_T)
+//@   assigns nothing
